@@ -2,6 +2,7 @@
 tree validator, the writers' container contract, deterministic work budgets and root-cause bucketing."""
 import sys
 
+import re
 from hypothesis import given, strategies as st
 
 from ..budget import CpuAlarm, StepBudgetExceeded, Work, cpu_limit
@@ -33,13 +34,45 @@ def template_universe(draw):
     return out
 
 
+MUT_SPLIT = re.compile(r"(\n|\[\[|\]\]|\{\||\|\}|\|-|\|\||!!|\||''+|</?[a-zA-Z]+|/?>|==+|\{\{|\}\}|\[|\]|[*#:;]+)")
+
+
 @st.composite
 def soup_case(draw, max_lex):
-    kind = draw(st.sampled_from(["soup", "soup", "soup", "nest"]))
+    kind = draw(st.sampled_from(["soup", "soup", "soup", "nest", "mutdoc"]))
     if kind == "soup":
         lex = draw(S.soup(max_lex))
         classes = sorted({c for c, _ in lex})
         parts = [l for _, l in lex]
+        depth = 0
+    elif kind == "mutdoc":
+        # a well-formed document of C02's grammar, cut at its markup delimiters and damaged by 1-8 edits
+        from ..gens.doc import G
+
+        src, _ = G(draw(st.randoms(use_true_random=False)), "en").doc()
+        parts = [x for x in MUT_SPLIT.split(src) if x][: max(400, max_lex * 8)]
+        classes = {"mutdoc"}
+        for _ in range(draw(st.integers(1, 8))):
+            if not parts:
+                break
+            i = draw(st.integers(0, len(parts) - 1))
+            op = draw(st.sampled_from(["delete", "duplicate", "swap", "insert", "truncate", "move"]))
+            if op == "delete":
+                del parts[i]
+            elif op == "duplicate":
+                parts.insert(i, parts[i])
+            elif op == "swap" and i + 1 < len(parts):
+                parts[i], parts[i + 1] = parts[i + 1], parts[i]
+            elif op == "insert":
+                c, lx = draw(S.lexeme())
+                classes.add(c)
+                parts.insert(i, lx)
+            elif op == "truncate":
+                parts[i] = parts[i][: draw(st.integers(0, max(0, len(parts[i]) - 1)))]
+            elif op == "move":
+                x = parts.pop(i)
+                parts.insert(draw(st.integers(0, len(parts))), x)
+        classes = sorted(classes)
         depth = 0
     else:
         depth, text = draw(S.nested())
